@@ -37,8 +37,13 @@ def run_e2e(args):
                 from sedpack.io.dataset_filler import DatasetFiller
                 from pathlib import Path as _P
                 with DatasetFiller(ds, relative_path_from_split=_P(se.get("sub", "."))) as f:
-                    for s in se["writes"]:
-                        f.write_example(values=sp.val(lo), split=I.SPLITS[s]); so[I.SPLITS[s]].append(lo); lo += 1
+                    for wi, s in enumerate(se["writes"]):
+                        # optional shard-level metadata that comes back to an earlier value after a different one (A, B, A)
+                        md = None
+                        if se.get("mds"):
+                            code = se["mds"][wi % len(se["mds"])]
+                            md = {"k": code} if code else None
+                        f.write_example(values=sp.val(lo), split=I.SPLITS[s], custom_metadata=md); so[I.SPLITS[s]].append(lo); lo += 1
             else:   # one multi-writer call, single_process so that the order of the argument list is the write order
                 argl = []
                 for n, s in se["writers"]:
@@ -122,7 +127,8 @@ def gen(ctx):
         def one_session():
             nsp = rng.choice([1, 2, 3])
             return {"mode": "session", "sub": rng.choice([".", ".", "a", "a/y"]),
-                    "writes": [rng.randrange(nsp) for _ in range(rng.choice([1, eps + 1, 3 * eps + 1, 4 * eps + 2]))]}
+                    "writes": [rng.randrange(nsp) for _ in range(rng.choice([1, eps + 1, 3 * eps + 1, 4 * eps + 2]))],
+                    "mds": rng.choice([None, None, [1, 1, 2, 2, 1, 1], [1, 2, 1, 0, 2], [3, 3, 3, 4, 4, 3, 3, 3]])}
         def one_multi():
             w = [(rng.choice([0, 1, eps, eps + 1, 2 * eps + 1]), rng.randrange(2)) for _ in range(rng.choice([2, 3, 4]))]
             if not any(n for n, _ in w): w[0] = (eps + 1, 0)
